@@ -21,6 +21,9 @@ PANICS = {
     'server::streaming::segments::segment::Segment::load_from_disk': {
         'unwrap self.index_reader': 'initialised by initialize_reading() a few lines above on the is_none() path',
         'unwrap self.indexes': 'assigned Some(..) unconditionally a few lines above',
+        'unwrap self.log_reader': 'initialised by initialize_reading() a few lines above on the is_none() path (same test as index_reader)',
+        'assert_overflow:Sub (phi{Atomic::load(self.log_size_bytes, Ordering::Acquire{}) | Option::filter(phi{0 | Option::None{} | SegmentLogReader::batch_end_position(…)}, closure)} - Opti':
+            'log_size_bytes - indexed_log_size inside `if let Some(size) = indexed.filter(|size| *size < log_size_bytes)`: the filter closure established size < log_size_bytes',
     },
     '<server::state::file::FileState as server::state::State>::init': {
         'assert_overflow:Sub (Vec::len(::load_entries(…)) - 1)': 'under entries_count != 0',
